@@ -537,6 +537,8 @@ def c04(tier, seed):
         out.add_vh(run_vh(["derive-replay", "--lines", lp, "--seed", seed, "--vals", 10,
                            "--thrmaps", 6 if thorough else 5, "--clients", 16 if thorough else 3], timeout=3000), only={"C04"})
     out.add_vh(run_vh(["length-sweep", "--prop", "C04", "--seed", seed, "--max", 1000 if thorough else 300], timeout=3000), only={"C04"})
+    # a generator object reused for another measurement derives what a fresh one derives
+    out.add_vh(run_vh(["generator-reuse", "--seed", seed], timeout=3000), only={"C04"})
     out.add_vh(run_vh(["thread-clients", "--seed", seed], timeout=3000), only={"C04"})
     _purity(out, "C04", seed, rounds=4 if tier == "thorough" else 3)
     return out
